@@ -28,6 +28,7 @@ RULE = ("stream 'token': phone-number strings (digits of length 1..20, leading z
         "national number. distinct = distinct input.")
 RULE += (" The order in which parameters were added is recorded independently of the request's own list (which a send must not rearrange).")
 RULE += (' Token cases with environment subclasses that override key / signature / class digest.')
+RULE += (' Requests built after switches of the environment (derived -> stock, stock -> derived).')
 ASSUMPTIONS = ["SHA-1 (hashlib) is the hash function; X25519 agreement is symmetric; AES-GCM decrypt inverts encrypt (cryptography / python-axolotl curve)",
                "lone surrogates are rejected by urllib.parse.quote and are outside the model", "freshness of the ephemeral key is a runtime property: exercised, not proved"]
 
@@ -123,6 +124,8 @@ def cases(chk):
         else:                                    # leading zero kept
             nat = "0" + body
         yield "request", {"cc": cc, "national": nat, "kind": ["code", "exists", "reg", "code-noid"][i % 4], "seed": i}
+        if i % 6 in (1, 4):
+            yield "request", {"cc": cc, "national": nat, "kind": ["code", "exists"][i % 2], "seed": i, "envswitch": 1 + (i // 6) % 2}
     for tag in sorted(chk.keypool):
         if chk.quick() and tag[0] == "second" and tag[1] not in (0, 5, 255):
             continue
@@ -364,6 +367,20 @@ def _run_request(chk, case):
         del self._verif_added[:]
         return real_clear(self)
     chk.WAR.addParam, chk.WAR.removeParam, chk.WAR.clearParams = add, remove, clear
+    active_key = chk.key
+    if case.get("envswitch"):
+        # the application switches environments (a newer build's constants in a subclass, then back to the stock one, or the other way round):
+        # a request carries the token of the environment that is current when it is built
+        from yowsup.env.env import YowsupEnv
+        from yowsup.env.env_android import AndroidYowsupEnv
+        if not hasattr(chk, "beta_key"):
+            chk.beta_key = bytes((7 * i + 3) % 256 for i in range(80))
+            type("VerifBetaAndroidYowsupEnv", (AndroidYowsupEnv,), {"_KEY": base64.b64encode(chk.beta_key).decode()})
+        order = ["verifbetaandroid", "android"] if case["envswitch"] == 1 else ["android", "verifbetaandroid"]
+        for name in order:
+            YowsupEnv.setEnv(name)
+        active_key = chk.key if order[-1] == "android" else chk.beta_key
+        chk.hit("request:env-switch:%s" % order[-1])
     try:
         if kind in ("code", "code-noid"):
             WACodeRequest("sms", prof).send(preview=True)
@@ -383,12 +400,15 @@ def _run_request(chk, case):
     finally:
         chk.WAR.sendRequest, chk.WAR.ENC_PUBKEY, chk.WAR.__init__ = real_send, real_key, real_init
         chk.WAR.addParam, chk.WAR.removeParam, chk.WAR.clearParams = real_add, real_remove, real_clear
+        if case.get("envswitch"):
+            from yowsup.env.env import YowsupEnv
+            YowsupEnv.setEnv("android")
     chk.hit("request:%s:sent=%d" % (kind, len(sent)))
     twice = kind in ("exists", "reg")
     if len(sent) != len(reqs) * (2 if twice else 1) or not sent:
         return [oracle("C20:request-not-sent", "cc %s national %s, %s: %d request objects, %d requests handed to the transport" % (cc, nat, kind, len(reqs), len(sent)))]
     data = chk.sig + chk.cls + nat.encode()
-    token = base64.b64encode(stdhmac.new(chk.key[:64], data, hashlib.sha1).digest())
+    token = base64.b64encode(stdhmac.new(active_key[:64], data, hashlib.sha1).digest())
     by_path = dict(("/" + q.url.split("/", 1)[1], q) for q in reqs)
     if sorted(by_path) != sorted(set(p_ for _h, p_, _p, _e in sent)):
         return [oracle("C20:request-not-sent", "cc %s national %s, %s: requests built for %s, the transport saw %s" % (cc, nat, kind, sorted(by_path), [p_ for _h, p_, _p, _e in sent]))]
